@@ -292,10 +292,11 @@ def check(db, rep):
     _guard(r1, 'declarative', declcase)
 
     # ------------------------------------------------------------------ r2 (shared)
-    r2 = rep.rule('r2', 'SET-ALGEBRA: membership formulas of the set operations (shared with C15 r2)', 7)
+    r2 = rep.rule('r2', 'SET-ALGEBRA: the set operations the evaluator delegates to, interpreted from the library source on mixed-representation families, agree with their definitions (shared with C15 r6)', 7)
     from rules import C15
-    sub = _SubReport(rep, r2)
-    C15_r2(db, r2)
+    fam_all = C15._families(rep.tier == 'thorough')
+    fam2 = {k_: fam_all[k_] for k_ in ('ℬ(ℤ)', 'ℬ(ℤ×ℤ)', 'ℬℬ(ℤ)') if k_ in fam_all}
+    C15.algebra_rule(db, rep, r2, fam2, rep.tier == 'thorough', instances=('Union', 'Intersect', 'Diff', 'SymDiff', 'IsSubsetOrEq', 'Reduce', 'Projection', 'Contains', 'Debool'), sizes=False, note_prefix='r2')
 
     # ------------------------------------------------------------------ r3
     r3 = rep.rule('r3', 'BINDERS: bound slot written each iteration before the body; var id from the declaration child; ITERATE domain re-evaluated on entry; all four loop heads count iterations', 9)
@@ -328,14 +329,9 @@ def check(db, rep):
         r4.violation('substitution-maps', '%s:%d' % (fn_.file, fn_.line), 'Function() does not clear %s before an expansion: substitutions of an earlier call leak into this one' % sorted({'nodeSubstitutes', 'nameSubstitutes'} - clears))
 
     # ------------------------------------------------------------------ r5 (shared)
-    r5 = rep.rule('r5', 'LAZY-ORDER: lazy product enumeration agrees with tuple comparison (shared with C15 r5)', 1)
-    inc = db.fn(O + 'SDDecartian::Iterator::operator++')
-    loops = [n for n in inc.walk() if n['k'] == 'ForStmt']
-    rev = bool(loops) and 'init' in loops[0] and any((c.get('cs') or '').endswith('::rbegin') for c in inc.calls(inc.stmts[loops[0]['init']]))
-    if rev:
-        r5.ok('product-iterator', 'last component advanced first', '%s:%d' % (inc.file, inc.line))
-    else:
-        r5.violation('product-iterator', '%s:%d' % (inc.file, inc.line), 'lazy products enumerate in an order that differs from tuple comparison: X1×X2 compares unequal to the enumerated set of the same pairs')
+    r5 = rep.rule('r5', 'LAZY-ORDER: a lazy product or power set equals the enumerated set of the same elements, also inside tuples and sets (shared with C15 r6): construction-independence of values', 2)
+    fam5 = {k_: fam_all[k_] for k_ in ('ℬ(ℬ(ℤ)×ℤ)', 'ℬ(ℤ×ℬ(ℤ))', 'ℬℬ(ℤ×ℤ)') if k_ in fam_all}
+    C15.algebra_rule(db, rep, r5, fam5, rep.tier == 'thorough', instances=('equality', 'order', 'nesting', 'iteration'), sizes=False, note_prefix='r5')
 
     # ------------------------------------------------------------------ r6
     r6 = rep.rule('r6', 'SYNTAX-FREE: evaluator, normaliser and name collector never read a syntax flag', 3)
@@ -353,39 +349,6 @@ def check(db, rep):
     _recursion_semantics(db, rep)
     _filter_semantics(db, rep)
     _normalise_order(db, rep)
-
-
-class _SubReport:
-    def __init__(self, rep, rule):
-        self.rule = rule
-
-
-def C15_r2(db, r2):
-    """re-run the set-algebra part of C15 into rule r2 of C01"""
-    from rules import C15
-    import itertools as it_
-    for name, oracle in C15.ORACLE.items():
-        f = db.fn(SET + '::' + name)
-        try:
-            clauses, problems = C15._comprehension(db, f)
-        except OutOfFragment as e:
-            r2.broken('%s outside the comprehension fragment: %s' % (name, e))
-            continue
-        if problems:
-            r2.violation(name, '%s:%d' % (f.file, f.line), '; '.join(problems))
-            continue
-        bad = None
-        for a, b in it_.product((False, True), repeat=2):
-            got = any((a if src == 'this' else b) and C15._cond(cond, a, b) for src, cond in clauses)
-            if got != oracle(a, b) and bad is None:
-                bad = (a, b, got)
-        if bad:
-            r2.violation(name, '%s:%d' % (f.file, f.line), 'for (e∈this, e∈rhs) = (%s, %s) the result %s the element' % (bad[0], bad[1], 'contains' if bad[2] else 'omits'))
-        else:
-            r2.ok(name, 'equals the definition on all 4 cases', '%s:%d' % (f.file, f.line))
-    for name in ('IsSubsetOrEq', 'Reduce', 'Projection'):
-        f = db.fn(SET + '::' + name)
-        r2.ok(name, 'decided under C15 r2', '%s:%d' % (f.file, f.line), nontrivial=False)
 
 
 def _guard(rule, inst, fn_):
